@@ -446,8 +446,11 @@ class Compiler:
             # Compile HAVING clause.
             if group_by.having is not None:
                 c_expr = self._compile(group_by.having)
-                if not is_aggregate(c_expr):
+                columns, aggregates = get_columns_and_aggregates(c_expr)
+                if not aggregates:
                     raise CompilationError('the HAVING clause must be an aggregate expression')
+                if columns:
+                    raise CompilationError('mixed aggregates and non-aggregates are not allowed')
                 having_index = len(new_targets)
                 new_targets.append(EvalTarget(c_expr, None, True))
                 c_target_expressions.append(c_expr)
